@@ -5,7 +5,7 @@ from h5 import gen, lean, lexical, wire
 
 ID = "C08"
 PROPS_MODULE = "H5.Props.C08"
-EXTRA_PROPS_MODULES = ["H5.Props.C08b", "H5.Props.C08cAttr", "H5.Props.C08cTag", "H5.Props.C08cMarkup", "H5.Props.C08c"]
+EXTRA_PROPS_MODULES = ["H5.Props.C08Tables", "H5.Props.C08b", "H5.Props.C08cAttr", "H5.Props.C08cTag", "H5.Props.C08cMarkup", "H5.Props.C08c"]
 GEN_MODULES = ["Serializer", "Constants", "Entities"]
 CORRESPONDENCE_OPS = ["ser"]
 SOURCES = ["html5lib/serializer.py", "html5lib/constants.py", "html5lib/treewalkers/base.py"]
@@ -159,7 +159,7 @@ def d_cr(toks, opts, scripting):
 
 def d_bool(toks, opts, scripting):
     """minimize_boolean_attributes: the value of an attribute listed in booleanAttributes (for this tag name or for '') is dropped"""
-    from html5lib.constants import booleanAttributes as BA
+    from h5.lexical import BOOLEAN_ATTRIBUTES_PINNED as BA   # pinned: see lexical.py
     if not opts.get("minimize_boolean_attributes", True):
         return None
 
@@ -357,7 +357,7 @@ def classify_features(toks, opts, scripting):
         return "carriage-return-not-escaped"
     if any(n == "noscript" and ns in (None, gen.HTML_NS) for ns, n in names) and len(toks) > 2:
         return "noscript-content-depends-on-reader-scripting"
-    from html5lib.constants import booleanAttributes as BA
+    from h5.lexical import BOOLEAN_ATTRIBUTES_PINNED as BA   # pinned: see lexical.py
     if opts.get("minimize_boolean_attributes", True) and any(
             k[1] in BA.get(t["name"], ()) or k[1] in BA.get("", ()) for t in tags for k in t["data"]):
         return "boolean-attribute-value-minimised"
